@@ -185,6 +185,9 @@ func (e *engine) tryRebind(fn *ssa.Function, blk *block, res *fnResult) *fnResul
 	if (!hasUnmapped && rejectedUnknown == "") || (res.rejected != "" && rejectedUnknown == "") {
 		return res
 	}
+	if r2 := e.tryPositionalRename(fn, blk); r2 != nil {
+		return r2
+	}
 	vars := codeVars(fn)
 	isVar := map[string]bool{}
 	for _, v := range vars {
@@ -202,8 +205,7 @@ func (e *engine) tryRebind(fn *ssa.Function, blk *block, res *fnResult) *fnResul
 	// names of the contract that used to be variables of the function and are not any more
 	var missing []string
 	for n := range used {
-		if isVar[n] || ghosts[n] || strings.HasPrefix(n, "DOLLAR__") || n == "nil" || n == "true" || n == "false" || n == "result" ||
-			strings.HasPrefix(n, "result") || n == "rangeindex" || n == "len" || n == "dom" || n == "val" || n == "closed" || n == "sent" ||
+		if isVar[n] || ghosts[n] || strings.HasPrefix(n, "DOLLAR__") || n == "nil" || n == "true" || n == "false" || n == "rangeindex" || n == "len" || n == "dom" || n == "val" || n == "closed" || n == "sent" ||
 			n == "rcvd" || n == "full" || n == "fdom" || n == "fval" || n == "allocated" || n == "cap" {
 			continue
 		}
@@ -327,4 +329,131 @@ func (e *engine) tryRebind(fn *ssa.Function, blk *block, res *fnResult) *fnResul
 		return r2
 	}
 	return res
+}
+
+// ---- positional renames ----------------------------------------------------------------------
+// /verif/theory/locals.snapshot lists, for every function under contract, its local variables and
+// captured variables in declaration order with their types, as they were when the contracts were last
+// proved on the committed tree (tools/gen_snapshot.sh; derived mechanically from /repo).  If the current
+// function has the same number of variables with the same types in the same order, variables whose
+// names differ at the same position are renames.  The snapshot is only a hint: the renaming is accepted
+// only if every obligation of the function is discharged under it.
+
+type localVar struct{ name, typ string }
+
+func orderedLocals(fn *ssa.Function) []localVar {
+	type av struct {
+		a *ssa.Alloc
+	}
+	var as []*ssa.Alloc
+	for _, b := range fn.Blocks {
+		for _, ins := range b.Instrs {
+			if a, ok := ins.(*ssa.Alloc); ok && a.Comment != "" && identRe.FindString(a.Comment) == a.Comment {
+				as = append(as, a)
+			}
+		}
+	}
+	sort.SliceStable(as, func(i, j int) bool { return as[i].Pos() < as[j].Pos() })
+	var out []localVar
+	for _, fv := range fn.FreeVars {
+		out = append(out, localVar{fv.Name(), "free:" + typeName(fv.Type())})
+	}
+	isParam := map[string]bool{}
+	for _, p := range fn.Params {
+		isParam[p.Name()] = true
+	}
+	for _, a := range as {
+		if isParam[a.Comment] {
+			continue
+		}
+		out = append(out, localVar{a.Comment, typeName(a.Type())})
+	}
+	return out
+}
+
+func (e *engine) snapshotFor(name string) []localVar {
+	if e.localsSnap == nil {
+		e.localsSnap = map[string][]localVar{}
+		data, err := os.ReadFile(e.snapshotFile)
+		if err == nil {
+			for _, line := range strings.Split(string(data), "\n") {
+				parts := strings.SplitN(line, "\t", 2)
+				if len(parts) != 2 {
+					continue
+				}
+				var vs []localVar
+				for _, f := range strings.Split(parts[1], "|||") {
+					if i := strings.Index(f, ":"); i > 0 {
+						vs = append(vs, localVar{f[:i], f[i+1:]})
+					}
+				}
+				e.localsSnap[parts[0]] = vs
+			}
+		}
+	}
+	return e.localsSnap[name]
+}
+
+func (e *engine) tryPositionalRename(fn *ssa.Function, blk *block) *fnResult {
+	old := e.snapshotFor(canonName(fn))
+	cur := orderedLocals(fn)
+	if len(old) == 0 || len(old) != len(cur) {
+		return nil
+	}
+	alias := map[string]string{}
+	for i := range old {
+		if old[i].typ != cur[i].typ {
+			return nil
+		}
+		if old[i].name != cur[i].name {
+			if prev, ok := alias[old[i].name]; ok && prev != cur[i].name {
+				return nil // the same old name declared several times and renamed differently: not handled
+			}
+			alias[old[i].name] = cur[i].name
+		}
+	}
+	if len(alias) == 0 {
+		return nil
+	}
+	// an old name that is still in use elsewhere in the function cannot be redirected as a whole
+	curNames := map[string]bool{}
+	for _, v := range cur {
+		curNames[v.name] = true
+	}
+	for o := range alias {
+		if curNames[o] {
+			return nil
+		}
+	}
+	r2 := e.verifyFuncWith(fn, blk, alias)
+	if r2.rejected != "" {
+		return nil
+	}
+	var todo []*oblig
+	for _, o := range r2.obligs {
+		if o.kind == "unmapped" {
+			return nil
+		}
+		if !o.thoroughOnly {
+			todo = append(todo, o)
+		}
+	}
+	dir, _ := os.MkdirTemp("", "kvc-rename")
+	defer os.RemoveAll(dir)
+	discharge(todo, dischargeOpts{quickSecs: 10, fullSecs: 20, workdir: dir, jobs: runtime.NumCPU()})
+	for _, o := range todo {
+		if !okOblig(o) {
+			return nil
+		}
+	}
+	var parts []string
+	for k, v := range alias {
+		parts = append(parts, fmt.Sprintf("%s -> %s", k, v))
+	}
+	sort.Strings(parts)
+	r2.notes = append(r2.notes, "renamed variables recognised by position and type against the locals snapshot (every obligation discharged under the renaming): "+strings.Join(parts, ", "))
+	for _, o := range todo {
+		o.prebaked = true
+	}
+	return r2
 }
